@@ -54,7 +54,10 @@ def strategy(tier):
         masses = [1.51, 4.92, 172.5]
         kind = draw(st.sampled_from(("inside", "cross-after", "cross-before", "down-then-match", "down-match-up-short", "backward")))
         nf0 = draw(st.sampled_from((3, 4)))
-        w = masses[nf0 - 3]
+        r = draw(st.sampled_from((1.0, 1.0, 0.7, 1.5)))  # matching ratio of the wall that may be crossed
+        ratios = [1.0, 1.0, 1.0]
+        ratios[nf0 - 3] = r
+        w = masses[nf0 - 3] * r
         f1 = draw(st.floats(1.5, 3.0))
         f2 = draw(st.floats(1.5, 3.0))
         inv = None
@@ -100,10 +103,11 @@ def strategy(tier):
             inv = draw(st.sampled_from(("exact", "expanded")))  # irrelevant without a downward matching, but valid
         pts = [[float(m), int(n)] for m, n in pts]
         mu_low = min(p[0] for p in pts + [[w, 0]] if p[0] > 0)
+        walls_lin = [m_ * r_ for m_, r_ in zip(masses, ratios)]
         alpha_low = draw(st.floats(0.22, 0.33))
         card = dict(
-            order=[order, 0], ref=[float(mu_low), ru.natural_nf(mu_low, masses)], alphas=float(alpha_low), masses=masses,
-            ratios=[1.0, 1.0, 1.0], method="iterate-exact", iters=(40 if quick else draw(st.integers(30, 60))) if order > 1 else 1,
+            order=[order, 0], ref=[float(mu_low), ru.natural_nf(mu_low, walls_lin)], alphas=float(alpha_low), masses=masses,
+            ratios=ratios, method="iterate-exact", iters=(40 if quick else draw(st.integers(30, 60))) if order > 1 else 1,
             deg=draw(st.sampled_from((3, 4))), inv=inv, cores=5 if quick else 2,
         )
         nq = draw(st.integers(2, 3))
@@ -114,6 +118,11 @@ def strategy(tier):
                 "val": [draw(st.floats(0.5, 3.0)), draw(st.floats(0.5, 1.0)), draw(st.floats(3.0, 5.0)), draw(st.floats(0.0, 3.0))],
             }
         pdf["21"] = {"sea": [draw(st.floats(0.5, 3.0)), draw(st.floats(-0.2, 0.2)), draw(st.floats(4.0, 7.0)), draw(st.floats(0.0, 2.0))]}
+        if order <= 2 and draw(st.booleans()):  # an intrinsic component of the quark whose wall may be crossed (NLO matching knows it)
+            pdf[str(nf0 + 1)] = {
+                "sea": [draw(st.floats(0.02, 0.2)), draw(st.floats(0.0, 0.3)), draw(st.floats(5.0, 8.0)), draw(st.floats(0.0, 2.0))],
+                "val": [draw(st.floats(0.05, 0.5)), draw(st.floats(0.5, 1.0)), draw(st.floats(3.0, 5.0)), draw(st.floats(0.0, 3.0))],
+            }
         fine = draw(st.integers(25, 26 if quick else 30))
         return {"kind": kind, "points": pts, "card": card, "pdf": pdf, "grids": [10 if quick else 15, fine]}
 
